@@ -1,12 +1,569 @@
 package c06
 
+// Second leg of C06: content the library did not encrypt itself.
+//
+//	(i)  files encrypted by the harness (internal/refcrypto) and written by fragbuild, with layouts the
+//	     library's own encryptor never emits: 8-byte per-sample IVs, 8-byte constant IVs, senc in front of
+//	     saiz/saio, aux_info_type in saiz/saio, 64-bit saio offsets, sub-sample maps with other legal split
+//	     points (extra zero-protected entries, clear leads other than the library's, fully clear NAL units,
+//	     protected ranges that are no multiple of 16), audio with a clear lead, 'seig' sample groups, cbcs
+//	     patterns 0:0 and 10:0 on video. mp4ff-decrypt's pipeline must return the clear samples.
+//	(ii) the encrypted files of the repository's test data with their documented keys: sizes and timing of
+//	     every sample are the same before and after decryption, and the decrypted bytes equal what
+//	     refcrypto computes from the file's own tenc/senc signalling (not for the PIFF files, whose
+//	     signalling sits in uuid boxes: sizes and timing only).
+
 import (
+	"bytes"
+	"encoding/json"
+	"fmt"
+	"os"
+	"path/filepath"
+	"testing"
+
+	"github.com/Eyevinn/mp4ff/mp4"
+	"pgregory.net/rapid"
+
+	"verif/internal/boxwalk"
 	"verif/internal/cryptgen"
+	"verif/internal/fragbuild"
 	"verif/internal/harness"
+	"verif/internal/refcrypto"
 )
 
-type tpCase struct{ Clear cryptgen.Case }
-type repoFileCase struct{ File string }
+type tpCase struct {
+	Clear     cryptgen.Case      `json:"clear"`
+	IVSize    int                `json:"ivSize"` // cenc: per-sample IV size (8|16); cbcs: constant IV size (8|16)
+	IVs       []harness.HexBytes `json:"ivs,omitempty"`
+	Subs      [][][2]uint32      `json:"subs"` // per sample; nil entry = no map (all samples then)
+	UseSubs   bool               `json:"useSubs"`
+	Crypt     byte               `json:"crypt"`
+	Skip      byte               `json:"skip"`
+	SencFirst bool               `json:"sencFirst,omitempty"`
+	AuxType   bool               `json:"auxType,omitempty"`
+	SaioV1    bool               `json:"saioV1,omitempty"`
+	Seig      bool               `json:"seig,omitempty"`
+}
 
-func checkThirdParty(c tpCase) *harness.Fail     { return nil }
-func checkRepoFile(c repoFileCase) *harness.Fail { return nil }
+func (c *tpCase) tenc() cryptgen.TencParams {
+	t := cryptgen.TencParams{KID: c.Clear.KID}
+	if c.Clear.Scheme == "cenc" {
+		t.IVSize = byte(c.IVSize)
+	} else {
+		t.Version, t.Crypt, t.Skip = 1, c.Crypt, c.Skip
+		t.ConstIV = c.Clear.IV16()[:c.IVSize]
+	}
+	return t
+}
+
+// buildEncrypted writes the encrypted file with the harness' own cipher and writer.
+func (c *tpCase) buildEncrypted() (*cryptgen.Built, [][]byte, error) {
+	cl := &c.Clear
+	if err := cl.Validate(); err != nil {
+		return nil, nil, err
+	}
+	n := len(cl.Samples)
+	if len(c.Subs) != n || (cl.Scheme == "cenc" && len(c.IVs) != n) {
+		return nil, nil, fmt.Errorf("tpCase: per-sample lists do not match the %d samples", n)
+	}
+	tenc := c.tenc()
+	clear := make([][]byte, n)
+	enc := make([][]byte, n)
+	entries := make([]cryptgen.SencEntry, n)
+	for i := range cl.Samples {
+		clear[i] = cl.Samples[i].Bytes()
+		ranges := refcrypto.Whole(len(clear[i]))
+		if c.UseSubs {
+			var ss []refcrypto.SubSample
+			for _, p := range c.Subs[i] {
+				if p[0] > 65535 {
+					return nil, nil, fmt.Errorf("tpCase: clear count %d", p[0])
+				}
+				ss = append(ss, refcrypto.SubSample{Clear: uint16(p[0]), Protected: p[1]})
+			}
+			var total int
+			ranges, total = refcrypto.RangesOf(ss)
+			if total != len(clear[i]) || len(ss) == 0 {
+				return nil, nil, fmt.Errorf("tpCase: sub-sample map of sample %d covers %d of %d bytes", i, total, len(clear[i]))
+			}
+			entries[i].Subs = c.Subs[i]
+		}
+		if cl.Scheme == "cenc" {
+			if len(c.IVs[i]) != c.IVSize {
+				return nil, nil, fmt.Errorf("tpCase: IV size")
+			}
+			iv := make([]byte, 16)
+			copy(iv, c.IVs[i])
+			enc[i] = refcrypto.CencCrypt(cl.Key, iv, clear[i], ranges)
+			entries[i].IV = c.IVs[i]
+		} else {
+			enc[i] = refcrypto.CbcsCrypt(cl.Key, tenc.ConstIV, clear[i], ranges, int(c.Crypt), int(c.Skip), false)
+		}
+	}
+	stsd := cryptgen.ProtectStsd(cl.Stsd, cl.Scheme, tenc)
+	first := 0
+	firstOf := make([]int, len(cl.Frags))
+	for f := range cl.Frags {
+		firstOf[f] = first
+		first += cl.Frags[f].N
+	}
+	b, err := cl.BuildWith(stsd, enc, func(f int, own []fragbuild.ExtraBox) []fragbuild.ExtraBox {
+		es := entries[firstOf[f] : firstOf[f]+cl.Frags[f].N]
+		sizes := make([]int, len(es))
+		for i, e := range es {
+			sizes[i] = len(e.IV)
+			if c.UseSubs {
+				sizes[i] += 2 + 6*len(e.Subs)
+			}
+		}
+		raw := func(box []byte) fragbuild.ExtraBox {
+			return fragbuild.ExtraBox{Type: string(box[4:8]), Payload: box[8:]}
+		}
+		v := byte(0)
+		if c.SaioV1 {
+			v = 1
+		}
+		saiz, saio, senc := raw(cryptgen.SaizBox(sizes, c.AuxType)), raw(cryptgen.SaioBox(0, v, c.AuxType)), raw(cryptgen.SencBox(es, c.UseSubs))
+		out := append([]fragbuild.ExtraBox(nil), own...)
+		if c.Seig {
+			sbgp, sgpd := cryptgen.SeigBoxes(len(es), tenc)
+			out = append(out, raw(sbgp), raw(sgpd))
+		}
+		if c.SencFirst {
+			return append(out, senc, saiz, saio)
+		}
+		return append(out, saiz, saio, senc)
+	})
+	if err != nil {
+		return nil, nil, err
+	}
+	// saio offsets: relative to the moof start, pointing at the first senc entry
+	top, err := boxwalk.WalkAll(b.File)
+	if err != nil {
+		return nil, nil, err
+	}
+	for _, moof := range top {
+		if moof.Type != "moof" {
+			continue
+		}
+		senc, saio := boxwalk.Find(moof.Children, "senc"), boxwalk.Find(moof.Children, "saio")
+		if len(senc) != 1 || len(saio) != 1 {
+			return nil, nil, fmt.Errorf("tpCase: senc/saio not found in the written moof")
+		}
+		off := uint64(senc[0].PayloadStart() + 8 - moof.Start)
+		end := saio[0].End()
+		if c.SaioV1 {
+			for k := 0; k < 8; k++ {
+				b.File[end-1-k] = byte(off >> (8 * uint(k)))
+			}
+		} else {
+			for k := 0; k < 4; k++ {
+				b.File[end-1-k] = byte(off >> (8 * uint(k)))
+			}
+		}
+	}
+	return b, clear, nil
+}
+
+func checkThirdParty(c tpCase) *harness.Fail {
+	b, clear, err := c.buildEncrypted()
+	if err != nil {
+		return harness.Failf("harness|tpCase.buildEncrypted", "%v", err)
+	}
+	// the file must make sense to the independent reader, and be what it is meant to be
+	if _, err := fragbuild.Read(b.File); err != nil {
+		return harness.Failf("harness|tpCase.buildEncrypted", "written file does not read back: %v", err)
+	}
+	out, f := decryptLikeCLI(b.File, c.Clear.Key)
+	if f != nil {
+		f.Key = "C06|third-party" + f.Key[len("C06"):]
+		return f
+	}
+	ot, werr := boxwalk.WalkAll(out)
+	if werr != nil {
+		return harness.Failf("C06|third-party|output box structure broken", "%v", werr)
+	}
+	if e := cryptgen.EntryOf(ot); e == nil || e.Type != c.Clear.Codec {
+		return harness.Failf("C06|third-party|sample entry type not restored", "want %q", c.Clear.Codec)
+	} else if len(boxwalk.Find(e.Children, "sinf")) != 0 {
+		return harness.Failf("C06|third-party|sinf left in the sample entry", "")
+	}
+	p, err := fragbuild.Read(out)
+	if err != nil {
+		return harness.Failf("C06|third-party|output data offsets or sample tables do not resolve", "%v", err)
+	}
+	return compareSamples("C06|third-party", p, &c.Clear, clear)
+}
+
+// genSubs draws a legal sub-sample map for a video sample.
+func genSubs(t *rapid.T, c *cryptgen.Case, i int, style int) [][2]uint32 {
+	var out [][2]uint32
+	clear := 0
+	flush := func(prot int) {
+		// split the clear run: at most 65535 per entry, and sometimes at arbitrary extra points
+		for clear > 65535 {
+			out = append(out, [2]uint32{65535, 0})
+			clear -= 65535
+		}
+		if clear > 1 && rapid.IntRange(0, 9).Draw(t, "extraSplit") == 0 {
+			k := rapid.IntRange(1, clear-1).Draw(t, "splitAt")
+			out = append(out, [2]uint32{uint32(k), 0})
+			clear -= k
+		}
+		out = append(out, [2]uint32{uint32(clear), uint32(prot)})
+		clear = 0
+	}
+	for _, sp := range c.Spans(i) {
+		clear += 4
+		min := sp.NalHdr
+		if c.Scheme == "cbcs" {
+			min = sp.Hdr
+		}
+		if !sp.VCL || sp.Len <= min {
+			clear += sp.Len
+			continue
+		}
+		lead := min
+		switch style {
+		case 0: // as tight as the scheme allows
+		case 1: // the whole header (and for cenc a multiple of 16 after it)
+			lead = sp.Hdr
+			if c.Scheme == "cenc" {
+				lead += (sp.Len - sp.Hdr) % 16
+			}
+		case 2:
+			lead = rapid.IntRange(min, sp.Len).Draw(t, "lead")
+		default:
+			lead = min + rapid.IntRange(0, 40).Draw(t, "leadSmall")
+		}
+		if lead > sp.Len {
+			lead = sp.Len
+		}
+		clear += lead
+		if sp.Len-lead > 0 {
+			flush(sp.Len - lead)
+		}
+	}
+	if clear > 0 || len(out) == 0 {
+		flush(0)
+	}
+	return out
+}
+
+func genThirdParty(t *rapid.T) tpCase {
+	avoid := map[string]bool{cryptgen.FeatExplicitBase: avoidKnown[cryptgen.FeatExplicitBase]}
+	c := tpCase{Clear: cryptgen.Gen(t, cryptgen.GenOpt{Avoid: avoid})}
+	cl := &c.Clear
+	cl.Pssh = nil
+	c.IVSize = rapid.SampledFrom([]int{8, 16}).Draw(t, "tpIVSize")
+	c.SencFirst = rapid.Bool().Draw(t, "sencFirst")
+	c.AuxType = rapid.Bool().Draw(t, "auxType")
+	c.SaioV1 = rapid.IntRange(0, 3).Draw(t, "saioV1") == 0
+	c.Seig = rapid.IntRange(0, 2).Draw(t, "seig") == 0
+	n := len(cl.Samples)
+	c.Subs = make([][][2]uint32, n)
+	if cl.Video() {
+		c.UseSubs = true
+		style := rapid.IntRange(0, 3).Draw(t, "subStyle")
+		for i := 0; i < n; i++ {
+			c.Subs[i] = genSubs(t, cl, i, style)
+		}
+		if cl.Scheme == "cbcs" {
+			pat := rapid.SampledFrom([][2]byte{{1, 9}, {1, 9}, {1, 9}, {0, 0}, {10, 0}}).Draw(t, "pattern")
+			c.Crypt, c.Skip = pat[0], pat[1]
+		}
+	} else if rapid.IntRange(0, 3).Draw(t, "audioSubs") == 0 {
+		// audio with a clear lead
+		c.UseSubs = true
+		for i := 0; i < n; i++ {
+			l := len(cl.Samples[i].Raw)
+			k := rapid.IntRange(0, 9).Draw(t, "audioLead")
+			if k > l {
+				k = l
+			}
+			c.Subs[i] = [][2]uint32{{uint32(k), uint32(l - k)}}
+		}
+	}
+	if cl.Scheme == "cenc" {
+		// per-sample IVs: start at the IV of the case, advance by the blocks used (16-byte IVs) or by one (8-byte IVs)
+		iv := cl.IV16()
+		if c.IVSize == 8 {
+			copy(iv[8:], make([]byte, 8))
+		}
+		for i := 0; i < n; i++ {
+			c.IVs = append(c.IVs, append([]byte(nil), iv[:c.IVSize]...))
+			if c.IVSize == 8 {
+				var x [16]byte
+				copy(x[8:], iv[:8])
+				x = refcrypto.Add128(x[:], 1)
+				copy(iv, x[8:])
+			} else {
+				nb := uint64(len(cl.Samples[i].Bytes())+15) / 16
+				x := refcrypto.Add128(iv, nb)
+				copy(iv, x[:])
+			}
+		}
+	}
+	return c
+}
+
+func tpClasses(c *tpCase) []string {
+	cl := []string{fmt.Sprintf("3p-%s/%s/iv%d", c.Clear.Codec, c.Clear.Scheme, c.IVSize)}
+	add := func(b bool, s string) {
+		if b {
+			cl = append(cl, s)
+		}
+	}
+	add(c.SencFirst, "3p-senc-before-saiz-saio")
+	add(c.AuxType, "3p-aux-info-type-present")
+	add(c.SaioV1, "3p-saio-version-1")
+	add(c.Seig, "3p-seig-sample-group")
+	add(!c.Clear.Video() && c.UseSubs, "3p-audio-with-clear-lead")
+	add(c.Clear.Scheme == "cbcs" && c.Clear.Video() && c.Skip != 9, fmt.Sprintf("3p-cbcs-pattern-%d:%d", c.Crypt, c.Skip))
+	zero, odd := false, false
+	for _, s := range c.Subs {
+		for k, p := range s {
+			zero = zero || (p[1] == 0 && k+1 < len(s))
+			odd = odd || p[1]%16 != 0
+		}
+	}
+	add(zero, "3p-zero-protected-entry-inside-map")
+	add(odd && c.Clear.Scheme == "cenc", "3p-cenc-range-not-multiple-of-16")
+	add(len(c.Clear.Frags) >= 2, "3p->=2 fragments")
+	return cl
+}
+
+func TestThirdParty(t *testing.T) {
+	t.Run("generated", func(t *testing.T) {
+		harness.RunRapid(t, "thirdparty", func(rt *rapid.T) {
+			c := genThirdParty(rt)
+			raw, _ := json.Marshal(c)
+			harness.Rec.Case(cryptgen.ExpectProtected(&c.Clear), raw, tpClasses(&c)...)
+			f := harness.Guarded(func() *harness.Fail { return checkThirdParty(c) })
+			harness.Report(rt, "crypt3p", c, f)
+		})
+	})
+	t.Run("repofiles", func(t *testing.T) {
+		for i, rf := range repoFiles {
+			if i%harness.E.NShards != harness.E.Shard {
+				continue
+			}
+			var st repoStats
+			f := harness.Guarded(func() *harness.Fail { return evalRepoFile(rf, &st) })
+			harness.Rec.CaseDistinct(st.protected > 0, "3p-repo-file", "3p-repo-file-"+rf.Scheme)
+			harness.Rec.ClassN("3p-repo-file-samples", int64(st.samples))
+			harness.ReportDirect(t, "crypt3pfile", rf, f)
+		}
+		harness.Rec.Exhaustive("encrypted files of the repository test data (5)")
+	})
+}
+
+// ---------------------------------------------------------------------------------------------
+// (ii) repository files
+
+type repoFileCase struct {
+	File   string `json:"file"` // relative to the repository
+	Init   string `json:"init,omitempty"`
+	Key    string `json:"key"`
+	Scheme string `json:"scheme"` // cenc | cbcs | piff
+}
+
+// keys as documented in cmd/mp4ff-decrypt/main_test.go
+var repoFiles = []repoFileCase{
+	{File: "mp4/testdata/prog_8s_enc_dashinit.mp4", Key: "63cb5f7184dd4b689a5c5ff11ee6a328", Scheme: "cenc"},
+	{File: "mp4/testdata/cbcs.mp4", Key: "22bdb0063805260307ee5045c0f3835a", Scheme: "cbcs"},
+	{File: "mp4/testdata/cbcs_audio.mp4", Key: "5ffd93861fa776e96cccd934898fc1c8", Scheme: "cbcs"},
+	{File: "cmd/mp4ff-decrypt/testdata/PIFF/audio/segment-1.0001.m4s", Init: "cmd/mp4ff-decrypt/testdata/PIFF/audio/init.mp4",
+		Key: "602a9289bfb9b1995b75ac63f123fc86", Scheme: "piff"},
+	{File: "cmd/mp4ff-decrypt/testdata/PIFF/video/complseg-1.0001.mp4", Key: "602a9289bfb9b1995b75ac63f123fc86", Scheme: "piff"},
+}
+
+type repoStats struct{ samples, protected int }
+
+func unhex(s string) []byte {
+	var h harness.HexBytes
+	if err := h.UnmarshalJSON([]byte(`"` + s + `"`)); err != nil {
+		panic(err)
+	}
+	return h
+}
+
+func checkRepoFile(c repoFileCase) *harness.Fail {
+	var st repoStats
+	return evalRepoFile(c, &st)
+}
+
+func evalRepoFile(c repoFileCase, st *repoStats) *harness.Fail {
+	enc, err := os.ReadFile(filepath.Join(harness.E.RepoDir, c.File))
+	if err != nil {
+		return harness.Failf("harness|repo file", "%v", err)
+	}
+	key := unhex(c.Key)
+	var initBytes []byte
+	var initParsed *fragbuild.Parsed
+	if c.Init != "" {
+		if initBytes, err = os.ReadFile(filepath.Join(harness.E.RepoDir, c.Init)); err != nil {
+			return harness.Failf("harness|repo file", "%v", err)
+		}
+		if initParsed, err = fragbuild.Read(initBytes); err != nil {
+			return harness.Failf("harness|repo file", "init: %v", err)
+		}
+	}
+	pe, err := fragbuild.ReadWith(enc, initParsed)
+	if err != nil {
+		return harness.Failf("harness|repo file", "%s does not read: %v", c.File, err)
+	}
+	// the pipeline of cmd/mp4ff-decrypt
+	inMp4, err := mp4.DecodeFile(bytes.NewReader(enc))
+	if err != nil {
+		return harness.Failf("C06|third-party file|DecodeFile error", "%v", err)
+	}
+	init := inMp4.Init
+	if init == nil {
+		if initBytes == nil {
+			return harness.Failf("harness|repo file", "no init")
+		}
+		iSeg, err := mp4.DecodeFile(bytes.NewReader(initBytes))
+		if err != nil {
+			return harness.Failf("C06|third-party file|DecodeFile(init) error", "%v", err)
+		}
+		init = iSeg.Init
+	}
+	di, err := mp4.DecryptInit(init)
+	if err != nil {
+		return harness.Failf("C06|third-party file|DecryptInit error", "%v", err)
+	}
+	var out bytes.Buffer
+	if inMp4.Init != nil {
+		if err := inMp4.Init.Encode(&out); err != nil {
+			return harness.Failf("C06|third-party file|Init.Encode error", "%v", err)
+		}
+	}
+	for _, seg := range inMp4.Segments {
+		if err := mp4.DecryptSegment(seg, di, key); err != nil {
+			return harness.Failf("C06|third-party file|DecryptSegment error", "%v", err)
+		}
+		if err := seg.Encode(&out); err != nil {
+			return harness.Failf("C06|third-party file|MediaSegment.Encode error", "%v", err)
+		}
+	}
+	dec := out.Bytes()
+	var decInit *fragbuild.Parsed
+	if initParsed != nil {
+		// the decrypted init segment is needed for the trex defaults only
+		decInit = initParsed
+	}
+	pd, err := fragbuild.ReadWith(dec, decInit)
+	if err != nil {
+		return harness.Failf("C06|third-party file|output data offsets or sample tables do not resolve", "%v", err)
+	}
+	if len(pd.Moofs) != len(pe.Moofs) {
+		return harness.Failf("C06|third-party file|fragment count differs", "%d vs %d", len(pd.Moofs), len(pe.Moofs))
+	}
+	// independent decryption from the file's own signalling
+	type trackProt struct {
+		p *cryptgen.Protection
+	}
+	prot := map[uint32]*cryptgen.Protection{}
+	et, _ := boxwalk.WalkAll(enc)
+	if c.Scheme != "piff" {
+		for _, trak := range boxwalk.Find(et, "trak") {
+			tk := boxwalk.Path(trak.Children, "tkhd")
+			stsd := boxwalk.Path(trak.Children, "mdia", "minf", "stbl", "stsd")
+			if tk == nil || stsd == nil || len(stsd.Children) == 0 {
+				continue
+			}
+			pl := enc[tk.PayloadStart():tk.End()]
+			id := uint32(pl[12])<<24 | uint32(pl[13])<<16 | uint32(pl[14])<<8 | uint32(pl[15])
+			if pl[0] == 1 {
+				id = uint32(pl[20])<<24 | uint32(pl[21])<<16 | uint32(pl[22])<<8 | uint32(pl[23])
+			}
+			p, err := cryptgen.ParseProtection(enc, stsd.Children[0])
+			if err != nil {
+				return harness.Failf("harness|repo file", "protection of track %d: %v", id, err)
+			}
+			if p != nil {
+				prot[id] = p
+			}
+		}
+	}
+	moofBoxes := boxwalk.Find(et, "moof")
+	for mi := range pe.Moofs {
+		me, md := &pe.Moofs[mi], &pd.Moofs[mi]
+		if len(me.Trafs) != len(md.Trafs) {
+			return harness.Failf("C06|third-party file|traf count differs", "moof %d", mi)
+		}
+		for ti := range me.Trafs {
+			te, td := &me.Trafs[ti], &md.Trafs[ti]
+			se, sd := te.Samples(), td.Samples()
+			if te.Tfhd.TrackID != td.Tfhd.TrackID || len(se) != len(sd) {
+				return harness.Failf("C06|third-party file|sample count differs", "moof %d traf %d: %d vs %d", mi, ti, len(sd), len(se))
+			}
+			for i := range se {
+				a, b := &se[i], &sd[i]
+				st.samples++
+				if a.Size != b.Size || a.Dur != b.Dur || a.Flags != b.Flags || a.Cto != b.Cto || a.DecodeTime != b.DecodeTime {
+					return harness.Failf("C06|third-party file|size or timing of a sample changed by decryption",
+						"moof %d traf %d sample %d: encrypted %+v decrypted %+v", mi, ti, i, meta(a), meta(b))
+				}
+			}
+			p := prot[te.Tfhd.TrackID]
+			if p == nil || p.Tenc == nil {
+				if c.Scheme != "piff" {
+					for i := range se {
+						if !bytes.Equal(se[i].Data, sd[i].Data) {
+							return harness.Failf("C06|third-party file|sample of an unprotected track changed", "moof %d traf %d sample %d", mi, ti, i)
+						}
+					}
+				} else {
+					for i := range se {
+						if !bytes.Equal(se[i].Data, sd[i].Data) {
+							st.protected++
+						}
+					}
+				}
+				continue
+			}
+			trafBox := boxwalk.Find(moofBoxes[mi].Children, "traf")[ti]
+			sencBoxes := boxwalk.Find(trafBox.Children, "senc")
+			if len(sencBoxes) != 1 {
+				return harness.Failf("harness|repo file", "moof %d traf %d: %d senc boxes", mi, ti, len(sencBoxes))
+			}
+			senc, err := cryptgen.ParseSenc(enc, sencBoxes[0], int(p.Tenc.IVSize))
+			if err != nil || senc.Count != len(se) {
+				return harness.Failf("harness|repo file", "moof %d traf %d: senc: %v (count %d, samples %d)", mi, ti, err, senc.Count, len(se))
+			}
+			for i := range se {
+				ranges := refcrypto.Whole(len(se[i].Data))
+				if senc.Flags&2 != 0 {
+					var total int
+					ranges, total = refcrypto.RangesOf(senc.Samples[i].Subs)
+					if total != len(se[i].Data) {
+						return harness.Failf("harness|repo file", "moof %d traf %d sample %d: sub-sample map covers %d of %d bytes", mi, ti, i, total, len(se[i].Data))
+					}
+				}
+				st.protected += refcrypto.ProtectedBytes(ranges)
+				var want []byte
+				if p.Scheme == "cenc" {
+					iv := make([]byte, 16)
+					copy(iv, senc.Samples[i].IV)
+					want = refcrypto.CencCrypt(key, iv, se[i].Data, ranges)
+				} else {
+					iv := senc.Samples[i].IV
+					if len(iv) == 0 {
+						iv = p.Tenc.ConstIV
+					}
+					want = refcrypto.CbcsCrypt(key, iv, se[i].Data, ranges, int(p.Tenc.Crypt), int(p.Tenc.Skip), true)
+				}
+				if !bytes.Equal(sd[i].Data, want) {
+					return harness.Failf("C06|third-party file|decrypted bytes differ from the reference cipher", "moof %d traf %d sample %d (%d bytes)", mi, ti, i, len(want))
+				}
+			}
+		}
+	}
+	return nil
+}
+
+func meta(s *fragbuild.PSample) string {
+	return fmt.Sprintf("{size %d dur %d flags %#x cto %d time %d}", s.Size, s.Dur, s.Flags, s.Cto, s.DecodeTime)
+}
